@@ -147,6 +147,8 @@ func (r *Router) handleHTTPRequest(ctx *Context) {
 			if ret := recover(); ret != nil {
 				ctx.Set(CTXRecoverResult, ret)
 				r.OnPanic(ctx)
+				// the normal end of dispatch is skipped by the panic, so write the status set by the hook here
+				ctx.writer.ensureWriteHeader()
 			}
 		}()
 	}
